@@ -84,6 +84,7 @@ def make_recording(rng, d, ns, n, name="rec", faults=False, nsync=1, claim_ns=No
         # a silent and a strongly noisy channel: channel rejection has something to label, repair and (for the spatial filter) keep inside
         cd, cn = int(rng.integers(5, n // 2 - 5)), int(rng.integers(n // 2 + 5, n - 5))
         x[:, cd] = rng.standard_normal(ns) * 1e-7
+        x[:, cd + 2] = rng.standard_normal(ns) * 1e-7      # ... and its neighbour one row up: two bad channels next to each other are repaired from GOOD channels only (round 19)
         x[:, cn] += rng.standard_normal(ns) * 400e-6
         # ... and a top block lacking the common signal (outside the brain): rejection keeps it out of the spatial reference
         kout = int(rng.integers(8, 14))
@@ -222,6 +223,22 @@ def reference(V, F, sr, rec, nbatch, k_filter, wrot, labels, nc_out, ns2add, h, 
             xf = xf[pad:-pad]
         return xf * gain
 
+    def interp_ref(dat, lab, x_, y_):
+        # repair of dead / noisy channels written out: each one becomes the weighted mean of the channels that are NOT themselves dead or noisy,
+        # weights exp(-(distance / 20 um) ** 1.3), those below 0.005 dropped; a channel without any such neighbour becomes zero
+        dat = dat.copy()
+        bad = np.flatnonzero((lab == 1) | (lab == 2))
+        src = dat.copy()            # nothing repaired serves as a source (bad channels never do)
+        for i_ in bad:
+            w_ = np.exp(-((np.hypot(x_ - x_[i_], y_ - y_[i_]) / 20.0) ** 1.3))
+            w_[bad] = 0
+            w_[w_ < 0.005] = 0
+            if not np.any(w_ > 0):
+                dat[i_] = 0
+                continue
+            dat[i_] = (w_[w_ > 0] / np.sum(w_)) @ src[w_ > 0]
+        return dat
+
     def spatial(dat):
         return kfilt_ref(dat, **kk) if k_filter else car_ref(dat, **kk)
     out = np.zeros((ns + ns2add, nc_out), np.float64)
@@ -234,7 +251,7 @@ def reference(V, F, sr, rec, nbatch, k_filter, wrot, labels, nc_out, ns2add, h, 
         chunk = scipy.signal.sosfiltfilt(sos, chunk)
         chunk = F.fshift(chunk, s=h["sample_shift"])
         if labels is not None:
-            chunk = V.interpolate_bad_channels(chunk, labels, h["x"], h["y"])
+            chunk = interp_ref(chunk, labels, np.asarray(h["x"], float), np.asarray(h["y"], float))
             inside = np.where(labels != 3)[0]
             chunk[inside, :] = spatial(chunk[inside, :])
         else:
